@@ -56,6 +56,8 @@ type World struct {
 	Stderr     []byte
 	StallEvery int           // >0: every n-th stdout write stalls
 	StallFor   time.Duration // duration of a stall
+	ErrEvery   int           // >0: every n-th stdout write fails with EAGAIN (nothing written)
+	FailedOut  []WriteRec    // the writes that failed
 	nOut       int
 }
 
@@ -114,12 +116,33 @@ func (stdoutT) Write(p []byte) (int, error) {
 	stall := w.StallEvery > 0 && w.nOut%w.StallEvery == 0
 	d := w.StallFor
 	w.mu.Unlock()
+	if stall && len(p) > 1 {
+		// a slow consumer: the first half of the bytes is taken at once, the rest after the stall;
+		// a process that exits in between leaves a torn record behind
+		half := len(p) / 2
+		w.mu.Lock()
+		w.Out = append(w.Out, WriteRec{Step: r.Step(), T: r.Now(), Data: append([]byte{}, p[:half]...)})
+		w.mu.Unlock()
+		simrt.Fault("stdout-stall")
+		simrt.Sleep("stdout.stall", d)
+		w.mu.Lock()
+		w.Out = append(w.Out, WriteRec{Step: r.Step(), T: r.Now(), Data: append([]byte{}, p[half:]...)})
+		w.mu.Unlock()
+		simrt.Event("stdout.write")
+		return len(p), nil
+	}
 	if stall {
 		simrt.Fault("stdout-stall")
 		simrt.Sleep("stdout.stall", d)
 	}
 	rec := WriteRec{Step: r.Step(), T: r.Now(), Data: append([]byte{}, p...)}
 	w.mu.Lock()
+	if w.ErrEvery > 0 && w.nOut%w.ErrEvery == 0 {
+		w.FailedOut = append(w.FailedOut, rec)
+		w.mu.Unlock()
+		simrt.Fault("stdout-error")
+		return 0, syscall.EAGAIN
+	}
 	w.Out = append(w.Out, rec)
 	w.mu.Unlock()
 	simrt.Event("stdout.write")
